@@ -92,17 +92,33 @@ class MemFS(FSBase):
             raise FileNotFoundError(p)
         return n[1]
 
-    def glob(self, pat):
+    def glob(self, pat, recursive=False):
         parts = pat.split("/")
         out = []
+        deep = recursive and "**" in parts
+        n = len(parts)
         for q in self.nodes:
-            qs = q.split("/")
-            if len(qs) == len(parts) and all(fnmatch.fnmatchcase(a, b) for a, b in zip(qs, parts)):
+            if not deep and q.count("/") + 1 != n:
+                continue
+            if _glob_match(q.split("/"), parts, recursive):
                 out.append(q)
         return sorted(out)
 
     def tree(self):
         return {p: (v if v == "dir" else v[1]) for p, v in self.nodes.items()}
+
+
+def _glob_match(qs, parts, recursive):
+    """glob.glob semantics on path components: '**' (with recursive=True) matches zero or more directories"""
+    if not parts:
+        return not qs
+    if parts[0] == "**" and recursive:
+        return any(_glob_match(qs[i:], parts[1:], recursive) for i in range(len(qs) + 1)) if len(parts) > 1 else True
+    if not qs:
+        return False
+    if not fnmatch.fnmatchcase(qs[0], parts[0]) or (qs[0].startswith(".") and not parts[0].startswith(".")):
+        return False
+    return _glob_match(qs[1:], parts[1:], recursive)
 
 
 class RealFS(FSBase):
@@ -147,8 +163,8 @@ class RealFS(FSBase):
         with open(self._r(p)) as f:
             return f.read()
 
-    def glob(self, pat):
-        return sorted(x[len(self.root):] for x in _glob.glob(self._r(pat)))
+    def glob(self, pat, recursive=False):
+        return sorted(x[len(self.root):].rstrip("/") for x in _glob.glob(self._r(pat), recursive=recursive))
 
     def tree(self):
         out = {"/": "dir"}
